@@ -14,7 +14,7 @@ insts = []
 SLOT = {8: "uint8_t", 16: "uint16_t", 32: "uint32_t", 64: "uint64_t"}
 
 
-def emit(idx, width, slotbits, compact, extra_defs, tag, lentype="uint32_t"):
+def emit(idx, width, slotbits, compact, extra_defs, tag, lentype="uint32_t", maxel=0xffffffff):
     prefix = "pk%d_" % idx
     out.append("/* instance %d: %s */" % (idx, tag))
     out.append("#define PACK_STORAGE_BITS %d" % width)
@@ -35,7 +35,7 @@ def emit(idx, width, slotbits, compact, extra_defs, tag, lentype="uint32_t"):
     out.append("static void w%d_delete(void *d, uint32_t len, uint32_t o) { %sDelete(d, (%s)len, (%s)o); }" % (idx, f, lentype, lentype))
     out.append("static int w%d_delete_member(void *d, uint32_t len, uint64_t v) { return %sDeleteMember(d, (%s)len, v); }" % (idx, f, lentype))
     out.append("")
-    insts.append((idx, width, slotbits, compact, tag))
+    insts.append((idx, width, slotbits, compact, tag, maxel))
 
 
 idx = 0
@@ -66,11 +66,23 @@ emit(idx, 3, 32, 0, [], "in-tree: 3 default (varintPackedTest.c)")
 idx += 1
 emit(idx, 12, 8, 0, ["PACK_MAX_ELEMENTS 3700", "PACK_STORAGE_SLOT_STORAGE_TYPE uint8_t",
                      "PACK_STORAGE_MICRO_PROMOTION_TYPE uint16_t"], "in-tree: 12/u8 slot/u16 promotion/max 3700 (varintDimension.c)",
-     lentype="uint16_t")
+     lentype="uint16_t", maxel=3700)
 idx += 1
+intree_last = idx
+# narrow length types (PACK_MAX_ELEMENTS is a documented option): the element index is a uint8_t / uint16_t while the
+# slot index and the bit offset exceed that type's range when the value is wider than the slot
+for (width, slotbits, compact, maxel) in ((12, 8, 0, 60000), (12, 8, 1, 250), (32, 16, 0, 60000), (3, 8, 0, 250), (17, 16, 0, 60000),
+                                          (24, 16, 0, 250), (9, 8, 0, 65535), (5, 64, 0, 255), (16, 8, 1, 255), (31, 32, 0, 65535),
+                                          (7, 8, 0, 200), (20, 16, 1, 40000)):
+    assert width <= slotbits + gcd(width, slotbits)
+    defs = ["PACK_MAX_ELEMENTS %d" % maxel]
+    defs.append("PACK_STORAGE_COMPACT" if compact else "PACK_STORAGE_SLOT_STORAGE_TYPE %s" % SLOT[slotbits])
+    emit(idx, width, slotbits, compact, defs, "narrow length type: w%d slot%d%s max %d" % (width, slotbits, " compact" if compact else "", maxel),
+         lentype="uint8_t" if maxel <= 255 else "uint16_t", maxel=maxel)
+    idx += 1
 
 out.append("typedef struct pinst {")
-out.append("    const char *tag; int width, slotbits, compact, intree;")
+out.append("    const char *tag; int width, slotbits, compact, intree; uint32_t maxel;")
 out.append("    void (*set)(void *, uint32_t, uint64_t); uint64_t (*get)(const void *, uint32_t);")
 out.append("    void (*incr)(void *, uint32_t, int64_t); void (*half)(void *, uint32_t);")
 out.append("    uint32_t (*bsearch)(const void *, uint32_t, uint64_t); int64_t (*member)(const void *, uint32_t, uint64_t);")
@@ -78,9 +90,9 @@ out.append("    void (*insert)(void *, uint32_t, uint32_t, uint64_t); void (*ins
 out.append("    void (*del)(void *, uint32_t, uint32_t); int (*del_member)(void *, uint32_t, uint64_t);")
 out.append("} pinst;")
 out.append("static const pinst PINST[] = {")
-for (i, w, s, c, tag) in insts:
-    out.append('    {"%s", %d, %d, %d, %d, w%d_set, w%d_get, w%d_incr, w%d_half, w%d_bsearch, w%d_member, w%d_insert, w%d_insert_sorted, w%d_delete, w%d_delete_member},'
-               % (tag, w, s, c, 1 if i >= intree_first else 0, i, i, i, i, i, i, i, i, i, i))
+for (i, w, s, c, tag, maxel) in insts:
+    out.append('    {"%s", %d, %d, %d, %d, %du, w%d_set, w%d_get, w%d_incr, w%d_half, w%d_bsearch, w%d_member, w%d_insert, w%d_insert_sorted, w%d_delete, w%d_delete_member},'
+               % (tag, w, s, c, 1 if intree_first <= i < intree_last else 0, maxel, i, i, i, i, i, i, i, i, i, i))
 out.append("};")
 out.append("#define NPINST %d" % len(insts))
 here = os.path.dirname(os.path.abspath(__file__))
